@@ -132,6 +132,11 @@ class MathSimplification:
             for blit in newbody:
                 allvars.update(set(collect_ast(blit, "Variable")))
             needed.update((global_vars_inside_body(stm.body) - global_vars_inside_body(newbody)) & allvars)
+            # global variables used inside the elements of an aggregate must stay global
+            for blit in stm.body:
+                if blit.ast_type == ASTType.Literal and blit.atom.ast_type == ASTType.BodyAggregate:
+                    for elem in blit.atom.elements:
+                        needed.update(set(collect_ast(elem, "Variable")) & global_vars_inside_body(stm.body))
             try:
                 new_conditions = gb.simplify_equalities(needed, unbound)
                 for cond in new_conditions:
